@@ -109,6 +109,7 @@ func (c02) Plan(tier string, seed int64) []mon.Workload {
 		{Name: "literal-chains", N: int64(len(c02ChainOps) * len(c02Operands) * len(c02ChainConsts) * len(c02ChainConsts)), Exhaustive: true},
 		{Name: "in-context", N: int64(len(gen.BinOps) * len(c02CtxVals) * len(c02CtxVals) * len(c02Contexts)), Exhaustive: true},
 		{Name: "membership-after-write", N: int64(len(c02MemLens) * len(c02MemHomes) * len(c02MemWrites) * 4), Exhaustive: true},
+		{Name: "big-operands", N: int64(len(c02BigSizes) * 3), Exhaustive: true},
 	}
 }
 
@@ -147,6 +148,73 @@ var c02MemLens = []int{1, 2, 3, 7, 8, 9, 15, 16, 17, 32, 33}
 var c02MemHomes = [][2]string{{"a = LIST\n", "a"}, {"m = {\"k\": LIST, \"j\": [0]}\n", "m[\"k\"]"}, {"o = [LIST, 5]\n", "o[0]"}, {"o = [0, {\"q\": LIST}]\n", "o[1][\"q\"]"}}
 var c02MemWrites = []string{"L[I] = NEW", "al = L\nal[I] = NEW", "L[I] += DELTA", "L[-1] = NEW", "for i = 0; i < 2; i = i + 1 {\n  L[I] = NEW\n  p(NEW in L, OLD in L)\n  L[I] = OLD\n  p(NEW in L, OLD in L)\n}",
 	"w = L\nL[I] = NEW\np(NEW in w, OLD in w)"}
+
+// big-operands (exhaustive): equality, concatenation and
+// membership on BIG operands - strings, lists and maps of 7..65537 bytes /
+// elements / keys (both sides of powers of two) that are equal, or differ in
+// their last byte / element / value only, or are each other's prefix.
+var c02BigSizes = []int{7, 8, 9, 15, 16, 17, 31, 32, 33, 63, 64, 65, 127, 128, 129, 255, 256, 257, 1023, 1024, 1025, 4095, 4096, 4097, 65535, 65536, 65537}
+
+func c02BigOperands(i int64) c02Case {
+	kind := int(i % 3)
+	n := c02BigSizes[int(i)/3]
+	var sb strings.Builder
+	switch kind {
+	case 0:
+		body := strings.Repeat("abcdefghijklmnopqrstuvwxyz", n/26+1)[:n]
+		fmt.Fprintf(&sb, "a = \"%s\"\nb = \"%s\"\nc = \"%sZ\"\nd = \"%s\"\n", body, body, body[:n-1], body[:n-1])
+		sb.WriteString("p(a == b, a == c, a != c, a != b, c == a, b == a, d == a, d != a, [a] == [b], {\"s\": a} == {\"s\": c})\n")
+		sb.WriteString("p(len(a + c), a + b == b + a, a + \"\" == a, d + a[-1:] == a, c in a, d in a, a in d, a[-3:] in a, \"Z\" in a, \"Z\" in c)\n")
+	case 1:
+		if n > 4097 {
+			n = 4097 + n%7 // lists and maps stop near 4K elements
+		}
+		el := func(last string) string {
+			var b strings.Builder
+			b.WriteString("[")
+			for j := 0; j < n-1; j++ {
+				fmt.Fprintf(&b, "%d, ", j)
+			}
+			return b.String() + last + "]"
+		}
+		fmt.Fprintf(&sb, "a = %s\nb = %s\nc = %s\nd = a[:-1]\n", el(fmt.Sprint(n-1)), el(fmt.Sprint(n-1)), el("-5"))
+		fmt.Fprintf(&sb, "p(a == b, a == c, a != c, a != b, d == a, d == c[:-1], a == a, %d in a, %d in c, -5 in c, -5 in a, %d in d, [a] == [b], [a] == [c])\n", n-1, n-1, n-1)
+	case 2:
+		if n > 4097 {
+			n = 4097 + n%7
+		}
+		mp := func(rev bool, last string) string {
+			var b strings.Builder
+			b.WriteString("{")
+			for j := 0; j < n; j++ {
+				k := j
+				if rev {
+					k = n - 1 - j
+				}
+				v := fmt.Sprint(k)
+				if k == n-1 {
+					v = last
+				}
+				if j > 0 {
+					b.WriteString(", ")
+				}
+				fmt.Fprintf(&b, "\"k%d\": %s", k, v)
+			}
+			return b.String() + "}"
+		}
+		fmt.Fprintf(&sb, "a = %s\nb = %s\nc = %s\n", mp(false, fmt.Sprint(n-1)), mp(true, fmt.Sprint(n-1)), mp(false, "-5"))
+		fmt.Fprintf(&sb, "p(a == b, a == c, a != c, a != b, len(a), a[\"k%d\"], c[\"k%d\"], a[\"k0\"], {\"m\": a} == {\"m\": b}, {\"m\": a} == {\"m\": c})\n", n-1, n-1)
+	}
+	o := drive.Parse("big-operands", sb.String())
+	if o.Err != nil {
+		panic("c02: big-operands program does not parse: " + o.Err.Error())
+	}
+	l, err := gt.FromStmts(o.Stmts)
+	if err != nil {
+		panic(err)
+	}
+	return c02Case{Stmts: gt.CloneStmts(l), Point: gen.ModelPoint(gen.Rand(1), nil, nil), Cell: ""}
+}
 
 func c02Membership(i int64) c02Case {
 	variant := int(i % 4) // bit 0: test before the write too; bit 1: strings instead of integers
@@ -305,6 +373,8 @@ func (c02) build(c *mon.Ctx, workload string, i int64) c02Case {
 		return c02InContext(i)
 	case "membership-after-write":
 		return c02Membership(i)
+	case "big-operands":
+		return c02BigOperands(i)
 	case "binary-table":
 		src := int(i % 3)
 		i /= 3
@@ -456,6 +526,10 @@ func (k c02) Run(c *mon.Ctx, workload string, i int64) {
 		c.Count("compared", 1)
 		if mo.Err != nil {
 			c.Count("reference_says_error", 1)
+			if workload == "big-operands" || workload == "membership-after-write" {
+				c.Count("reference_says_error:"+workload, 1)
+				c.Cell("reference_errors:"+workload, mo.Err.Msg)
+			}
 		}
 	}
 	if r := compareRun(ro, mo, cmpOpts{}); r != nil {
@@ -473,7 +547,7 @@ func (k c02) Run(c *mon.Ctx, workload string, i int64) {
 	if !againV1(c, script, name, src, cs.Point, nil, mo, i%4 == 0 || workload != "table", "", info) {
 		return
 	}
-	if workload == "membership-after-write" {
+	if workload == "membership-after-write" || workload == "big-operands" {
 		// the same program on the v2 interpreter
 		runV2Text(c, "membership-after-write", src)
 	}
